@@ -67,6 +67,20 @@ CHECKS["C08"] = dict(engine="ShardLife", category="model_checking", design_ref="
          "panics are observed through recover() in the harness goroutine that plays the memberlist / handler goroutine; "
          "cancel-function identity is probed destructively at the end of a run.")
 
+CHECKS["C09"] = dict(engine="Gossip", category="model_checking", design_ref="3.4",
+    technique="TLA+ spec of shard-ownership gossip (Gossip.tla: claim and announcement as separate clock reads, reliable "
+              "messages with delay/duplication, full-state merge, leave) model-checked by TLC; TLC-simulated delivery "
+              "schedules replayed on 2-3 real shardManagerImpl instances with the harness playing memberlist and the real "
+              "announcement bytes captured at a hook; views at quiescence and the complete owner-routing decision table "
+              "judged by TLC (GossipObs.tla)",
+    text="TLC explores all delivery orders, duplications and delays of register/unregister announcements among 2-3 "
+         "instances and 1-2 shards (SingleNewestOwner, LeftOwnNothing at quiescence). Simulated schedules are replayed on "
+         "real shard managers whose RegisterShard/UnregisterShard/NotifyMsg/MergeRemoteState/NotifyLeave run unmodified; "
+         "each run is completed to quiescence and TLC checks the recorded local-shard sets and peer tables. The routing "
+         "clause is decided over the full decision table (96 cases) of DeliverMessagesToShardOwner/DeliverAckToShardOwner.",
+    note="Trusted: TLC; the harness stands in for memberlist's reliable delivery (no real network); claim order = order of "
+         "time.Now() reads in one process; the remote branch of routing ends at in-package fake intra-proxy streams.")
+
 NOT_YET = "check not built yet (work in progress; see DESIGN.md section 6 for the order of work)"
 NA = {}
 
